@@ -27,6 +27,28 @@ CHECKS["C19"] = dict(
     technique="Coq proof (induction over grids, Q arithmetic) + randomized typed correspondence by vm_compute",
     design="4/C19")
 
+CHECKS["C02"] = dict(
+    text="Theorems about a Gallina model of one backward-Euler step of the finite-difference solver (all grids, 1D/2D/3D, "
+         "every dt, nodal-varying coefficients): the weighted node equations telescope in r, theta and z, so the change of "
+         "stored heat equals dt times the exchange with the two radial ghost layers, which the ghost rows turn into "
+         "0 / flux / film*(Tf - Twall) with the explicit half-node factor 1 -/+ dr/(2r); non-negative flux never lowers the "
+         "stored heat.  Tied to srlife/thermal.py by an exact certificate: the model's equations evaluated at the "
+         "implementation's output for every recorded (sub)step.",
+    note="Trusted: Coq kernel; spsolve (output only checked); harness reference for BC data and material tables; "
+         "hypotheses: tables periodic in their theta ghosts (H2), r > 0; flux sign needs dr < 2 r_inner (H1). "
+         "Volumetric sources and the fix_edge test mode are not modelled.",
+    technique="Coq proof (telescoping sums over Q) + exact per-step certificate correspondence by vm_compute",
+    design="4/C02")
+CHECKS["C06"] = dict(
+    text="Discrete maximum principle proved for the same model: for every dt > 0, grid, dimension and positive nodal "
+         "coefficient tables, every real node stays within the range of the previous field, fixed wall temperatures and fluid "
+         "temperatures (argmax argument over the finite node list), one-sided versions with signed flux, uniform insulated "
+         "fields stay uniform for ever, uniqueness of the solution on real nodes; the hypothesis dr < 2 r_inner is shown "
+         "necessary by a machine-checked counterexample that reproduces on the implementation (known finding).",
+    note="Trusted: as C02.  Steady mode is excluded (C13).  Float comparisons use a tolerance scaled by the step's condition number.",
+    technique="Coq proof (argmax + sign analysis of the stencil, linearity) + certificate correspondence",
+    design="4/C06")
+
 NOT_YET = {}
 
 def main():
